@@ -16,6 +16,8 @@ impl Offsets<i32> {
 		requires (*old(self))@.len() > 0,
 		ensures
 			length >= 0 && (*old(self))@[(*old(self))@.len() - 1] + length <= 0x7fff_ffff ==> r is Ok && (*final(self))@ == (*old(self))@.push(((*old(self))@[(*old(self))@.len() - 1] + length) as i32),
+			r is Ok ==> length >= 0 && (*final(self))@ == (*old(self))@.push(((*old(self))@[(*old(self))@.len() - 1] + length) as i32)
+				&& (*old(self))@[(*old(self))@.len() - 1] + length <= 0x7fff_ffff,
 			r is Err ==> (*final(self))@ == (*old(self))@,
 	{ unimplemented!() }
 	// start_end(i) = (offsets[i], offsets[i+1]) as usize
@@ -24,6 +26,14 @@ impl Offsets<i32> {
 		requires i + 1 < self@.len(), self@[i as int] >= 0, self@[i as int + 1] >= 0,
 		ensures r.0 == self@[i as int], r.1 == self@[i as int + 1],
 	{ unimplemented!() }
+}
+impl vstd::std_specs::convert::FromSpecImpl<OffsetsError> for super::Error {
+	open spec fn obeys_from_spec() -> bool { true }
+	open spec fn from_spec(e: OffsetsError) -> super::Error { super::Error::Arrow }
+}
+impl From<OffsetsError> for super::Error {
+	#[verifier::external_body]
+	fn from(e: OffsetsError) -> (r: super::Error) { unimplemented!() }
 }
 pub struct NonZeroU16 { pub n: u16 }
 impl Clone for NonZeroU16 { #[verifier::external_body] fn clone(&self) -> (r: Self) ensures r == *self { unimplemented!() } }
